@@ -45,6 +45,7 @@ Check(e) ==
       [] e.kind = "mostgeneric" -> MostGenericContract(e, Trace.hdr)
       [] e.kind = "factory" -> FactoryContract(e, Trace.hdr)
       [] e.kind = "bigarith" -> BigArithContract(e)
+      [] e.kind = "bigbv" -> BigBVContract(e)
       [] e.kind = "ack" -> AckContract(e)
       [] OTHER -> Verdict(<<"unknown_event_kind">>, <<>>, -1)
 
